@@ -2,7 +2,7 @@
    Only statements, `exact`, and Print Assumptions.
    Model: Model/Form.v, Model/Multipart.v, Model/ReqBody.v, Model/Progress.v (+ Gen/PayloadForbid.v,
    Gen/ContentTypes.v regenerated from the Go source). *)
-From Coq Require Import ZArith.
+From Coq Require Import ZArith Permutation.
 From ReqV Require Import Lib.Bytes Model.Form Model.Multipart Model.ReqBody Model.Progress
   Proofs.FormProofs Proofs.MultipartProofs Proofs.ReqBodyProofs Proofs.ProgressProofs.
 
@@ -80,26 +80,35 @@ Print Assumptions C17_parse_render.
 (* fields, then files in order, with the names, file names, content types (given or sniffed) and
    bytes supplied; any number of files.  field_ok / file_ok: names without control bytes,
    CRLF--boundary in no value / file content, content type made of header-value bytes *)
-Theorem C17_multipart_roundtrip : forall sniff b fields files,
+Theorem C17_multipart_roundtrip : forall is_print sniff b fields files,
   boundary_chars b = true ->
   forallb (field_ok b) fields = true ->
-  forallb (file_ok sniff b) files = true ->
-  parse_form_parts b (multipart_body sniff b fields files) =
+  forallb (file_ok is_print sniff b) files = true ->
+  parse_form_parts b (multipart_body is_print sniff b fields files) =
   Some (map field_view fields ++ map (file_view sniff) files).
 Proof. exact multipart_roundtrip. Qed.
 Print Assumptions C17_multipart_roundtrip.
 
 (* a file name can never change the part structure: whatever bytes it holds, its quoted form
    consists of bytes a header value may carry (no CR, LF, NUL ...) *)
-Theorem C17_quoted_name_is_header_safe : forall s, forallb valid_hv (go_quote s) = true.
+Theorem C17_quoted_name_is_header_safe : forall is_print s, forallb valid_hv (go_quote is_print s) = true.
 Proof. exact go_quote_valid. Qed.
 Print Assumptions C17_quoted_name_is_header_safe.
 
-(* names without control bytes survive quoting and the server's unquoting *)
-Theorem C17_unquote_quote : forall s r,
-  name_ok s = true -> unquote (flat_map quote_byte s ++ dquote :: r) = Some (s, r).
-Proof. exact unquote_quote. Qed.
-Print Assumptions C17_unquote_quote.
+(* for EVERY file name (any bytes, invalid UTF-8, unprintable runes) the server's quoted-string
+   reader recovers a definite name (name_image), and that name is the one supplied exactly when the
+   name is quotable: no ASCII control byte, valid UTF-8, only runes strconv.IsPrint accepts *)
+Theorem C17_file_name_recovered_iff : forall is_print s r,
+  unquote (quote_body is_print (length s) s ++ dquote :: r) = Some (name_image is_print (length s) s, r) /\
+  (name_image is_print (length s) s = s <-> quotable is_print s = true).
+Proof. exact file_name_recovered. Qed.
+Print Assumptions C17_file_name_recovered_iff.
+
+(* field names: every name the code accepts (no control byte other than TAB) arrives exactly *)
+Theorem C17_field_name_recovered : forall s r,
+  field_name_ok s = true -> unquote (escape_quotes s ++ dquote :: r) = Some (s, r).
+Proof. exact unquote_escape_quotes. Qed.
+Print Assumptions C17_field_name_recovered.
 
 (* the boundary parameter of the request's Content-Type is the boundary of the body *)
 Theorem C17_content_type_names_boundary : forall b,
@@ -110,15 +119,15 @@ Print Assumptions C17_content_type_names_boundary.
 (* ------------------------------------------------------------------ dispatch *)
 
 (* HEAD, OPTIONS, and GET unless AllowGetMethodPayload: no payload whatever was configured *)
-Theorem C17_forbidden_methods_send_nothing : forall sniff q,
-  payload_forbidden (q_method q) (q_allow_get q) = true -> plan_of sniff q = PNone.
+Theorem C17_forbidden_methods_send_nothing : forall is_print sniff q,
+  payload_forbidden (q_method q) (q_allow_get q) = true -> plan_of is_print sniff q = PNone.
 Proof. exact forbidden_methods_send_nothing. Qed.
 Print Assumptions C17_forbidden_methods_send_nothing.
 
-Theorem C17_head_options_get_send_nothing : forall sniff q,
+Theorem C17_head_options_get_send_nothing : forall is_print sniff q,
   q_method q = bs "HEAD" \/ q_method q = bs "OPTIONS" \/
   (q_method q = bs "GET" /\ q_allow_get q = false) ->
-  plan_of sniff q = PNone.
+  plan_of is_print sniff q = PNone.
 Proof. exact head_options_get_send_nothing. Qed.
 Print Assumptions C17_head_options_get_send_nothing.
 
@@ -130,30 +139,52 @@ Proof. exact payload_forbidden_spec. Qed.
 Print Assumptions C17_payload_forbidden_spec.
 
 (* a prepared body comes under the Content-Type that describes it *)
-Theorem C17_content_type_matches_body : forall sniff q ct body,
+Theorem C17_content_type_matches_body : forall is_print sniff q ct body,
   valid_boundary (q_random_boundary q) = true ->
-  plan_of sniff q = PBody ct body ->
+  plan_of is_print sniff q = PBody ct body ->
   (q_multipart q = false /\ ct = form_ct /\ snd (parse_query body) = false) \/
   (q_multipart q = true /\
    let b := effective_boundary (q_custom_boundary q) (q_random_boundary q) in
    parse_boundary_param ct = Some b /\
-   body = multipart_body sniff b (multipart_fields q) (q_files q)).
+   forallb (fun kv => field_name_ok (fst kv)) (multipart_fields q) = true /\
+   body = multipart_body is_print sniff b (multipart_fields q) (q_files q)).
 Proof. exact content_type_matches_body. Qed.
 Print Assumptions C17_content_type_matches_body.
 
 (* a multipart request as a whole: the boundary named in Content-Type frames a body that reads
-   back as the ordered pairs, the plain form data of both levels, and the files in order *)
-Theorem C17_multipart_request_roundtrip : forall sniff q ct body,
+   back as the ordered pairs, the plain form data of both levels, and the files in order.  Nothing
+   is asked of the field names: a request whose field names cannot be carried is refused *)
+Theorem C17_multipart_request_roundtrip : forall is_print sniff q ct body,
   valid_boundary (q_random_boundary q) = true ->
-  plan_of sniff q = PBody ct body -> q_multipart q = true ->
+  plan_of is_print sniff q = PBody ct body -> q_multipart q = true ->
   let b := effective_boundary (q_custom_boundary q) (q_random_boundary q) in
-  forallb (field_ok b) (multipart_fields q) = true ->
-  forallb (file_ok sniff b) (q_files q) = true ->
+  forallb (value_ok b) (multipart_fields q) = true ->
+  forallb (file_ok is_print sniff b) (q_files q) = true ->
   parse_boundary_param ct = Some b /\
   parse_form_parts b body =
   Some (map field_view (multipart_fields q) ++ map (file_view sniff) (q_files q)).
 Proof. exact multipart_request_roundtrip. Qed.
 Print Assumptions C17_multipart_request_roundtrip.
+
+Theorem C17_bad_field_name_refused : forall is_print sniff q,
+  payload_forbidden (q_method q) (q_allow_get q) = false -> q_multipart q = true ->
+  forallb (fun kv => field_name_ok (fst kv)) (multipart_fields q) = false ->
+  plan_of is_print sniff q = PError.
+Proof. exact bad_field_name_refused. Qed.
+Print Assumptions C17_bad_field_name_refused.
+
+(* SetFiles attaches the files in map iteration order: every order gives the same multiset of parts *)
+Theorem C17_files_any_order : forall is_print sniff b fields files files',
+  boundary_chars b = true ->
+  forallb (field_ok b) fields = true ->
+  forallb (file_ok is_print sniff b) files = true ->
+  Permutation files files' ->
+  exists vs vs',
+    parse_form_parts b (multipart_body is_print sniff b fields files) = Some vs /\
+    parse_form_parts b (multipart_body is_print sniff b fields files') = Some vs' /\
+    Permutation vs vs'.
+Proof. exact files_any_order. Qed.
+Print Assumptions C17_files_any_order.
 
 (* marshalled values: XML iff the effective Content-Type says xml; the JSON content type is
    set exactly when the caller gave none, and then the body is JSON *)
@@ -200,6 +231,20 @@ Theorem C17_download_progress_final : forall interval t0 pre n now,
 Proof. exact download_progress_final. Qed.
 Print Assumptions C17_download_progress_final.
 
+(* int64: with fewer than 2^63 bytes in total every count the Go code computes and reports lies in
+   (0, 2^63) - no wrap-around, the Z model is exact *)
+Theorem C17_upload_counts_fit_int64 : forall total interval evs st,
+  (0 <= w_written st)%Z -> (w_written st + written_total evs < 2 ^ 63)%Z ->
+  Forall (fun r => (0 < r < 2 ^ 63)%Z) (run_writer total interval st evs).
+Proof. exact upload_counts_fit_int64. Qed.
+Print Assumptions C17_upload_counts_fit_int64.
+
+Theorem C17_download_counts_fit_int64 : forall interval evs st,
+  (0 <= r_lastread st <= r_read st)%Z -> (r_read st + read_total evs < 2 ^ 63)%Z ->
+  Forall (fun r => (0 < r < 2 ^ 63)%Z) (run_reader interval st evs).
+Proof. exact download_counts_fit_int64. Qed.
+Print Assumptions C17_download_counts_fit_int64.
+
 (* whatever the clock: the reports are a sub-sequence of the running byte totals (this is what
    the checker applies where the harness cannot observe the clock) *)
 Theorem C17_upload_any_clock : forall total interval evs st,
@@ -243,6 +288,7 @@ Qed.
 (* the multipart hypotheses are met by a request with fields, quoting-needing names, two files *)
 Example C17_multipart_nonvacuous :
   let sniff := fun _ : bytes => bs "application/octet-stream" in
+  let is_print := fun r : N => N.eqb r 233 in   (* U+00E9 *)
   let b := bs "XyZ" in
   let fields := [(bs "k ""q""", bs "v1"); (bs "", bs "--XyZ")] in
   let files := [ {| f_param := bs "file"; f_name := bs "a""b\c.txt"; f_ctype := []; f_extra := [];
@@ -251,8 +297,8 @@ Example C17_multipart_nonvacuous :
                     f_extra := [(bs "x-id", bs "7""")];
                     f_content := []; f_first := 0 |} ] in
   boundary_chars b = true /\ forallb (field_ok b) fields = true /\
-  forallb (file_ok sniff b) files = true /\
-  parse_form_parts b (multipart_body sniff b fields files) =
+  forallb (file_ok is_print sniff b) files = true /\
+  parse_form_parts b (multipart_body is_print sniff b fields files) =
   Some (map field_view fields ++ map (file_view sniff) files).
 Proof. cbn zeta. repeat split; vm_compute; reflexivity. Qed.
 
